@@ -3,12 +3,16 @@ import vlib
 CFG = dict(
     imports=["From Verif.Common Require Import Labels Packet.", "From Verif.C29 Require Import Model Spec."],
     checker="check_case",
-    n=dict(quick=200, thorough=6000),
+    n=dict(quick=200, thorough=3000),
     shard=50,
-    rule="per case: 3 namespaces with generated labels, 3-5 pods (labels, service account, named container ports, IPv4/IPv6), "
-         "1-2 NetworkPolicies (podSelector/namespaceSelector with matchLabels and matchExpressions In/NotIn/Exists/DoesNotExist, "
-         "empty and nil selectors, 0-3 peers incl. ipBlock with except, 0-4 ports incl. named, endPort ranges, default protocol, "
-         "policyTypes I/E/IE/absent) and 16 connections; non-trivial = the policies have at least one rule; distinct by the whole case",
+    rule="per case: 3 namespaces with generated labels, 3-5 pods (labels, service account, named container ports, IPv4/IPv6; "
+         "some carry pcns./pcsa. labels), service accounts with labels, 1-2 NetworkPolicies (podSelector/namespaceSelector with "
+         "matchLabels and matchExpressions In/NotIn/Exists/DoesNotExist, empty and nil selectors, 0-3 peers incl. ipBlock with except "
+         "and host bits, 0-4 ports incl. named, endPort ranges, clustered numbers, default protocol, policyTypes I/E/IE/absent) and up "
+         "to 18 connections (6 aimed at one rule: selected local pod, remote satisfying a peer, port from a port entry or next to it); "
+         "streams: scripted witnesses w1/w2 of the Coq refutations, objects the API validation rejects (oracle not consulted, model "
+         "must agree), known-finding classes (policyTypes absent with egress rules; Calico-reserved label keys) each followed by a "
+         "twin case with the construct neutralised; non-trivial = the policies have at least one rule; distinct by the whole case",
     trusted=["Coq 8.16.1 kernel + vm_compute",
              "hand-written model coq/theories/C29/Model.v tied to conversion.go / updateprocessors by this correspondence run",
              "reference Kubernetes NetworkPolicy semantics and Calico rule semantics in coq/theories/C29/Spec.v (read them)",
@@ -28,6 +32,25 @@ def classify(line):
     return None
 
 CFG["classify"] = classify
+
+def replay(ctx, path):
+    """./check C29 --replay <file>: re-run the real code on the inputs stored in the replay file, then model + oracle."""
+    exe, log = vlib.go_build(ctx)
+    if exe is None:
+        print(log[-3000:]); return 1
+    import os
+    lines = vlib.run_driver(ctx, exe, ["-replay", os.path.abspath(path)])
+    failing, _ = vlib.coq_eval_cases(ctx, CFG["imports"], CFG["checker"], [l["coq"] for l in lines], shard=50)
+    for l in lines:
+        print("policies :", l["sample"]["policies"])
+        print("converted:", l["sample"]["converted"])
+        print("tags     :", l.get("tags"))
+    if not failing:
+        print("replay: model agrees with the implementation and the Kubernetes-semantics oracle accepts its output")
+        return 0
+    for (i, a, o) in failing:
+        print("replay: model==implementation: %s ; oracle (Kubernetes verdict == Calico verdict on every connection): %s" % (a, o))
+    return 1
 
 def run(ctx):
     return vlib.standard_flow(ctx, CFG)
